@@ -15,6 +15,8 @@ EXTENDS Naturals, Sequences, FiniteSets, TLC
 CONSTANTS
     Txs,            \* transaction ids
     Keys,           \* naturals
+    KsSplit,        \* keys 1..KsSplit live in one keyspace, the larger ones in a second keyspace
+                    \* (under the same user keys); KsSplit >= every key: a single keyspace
     MaxOpsPerTx,
     Methods,        \* subset of {"get", "size_of", "scan", "range_lo", "insert", "remove", "rmw"}
     SingleWriter,   \* TRUE: SingleWriterTxDatabase (write_tx holds a process-wide mutex)
@@ -48,23 +50,27 @@ ValAt(k, i) ==
     IF es = {} THEN 0 ELSE (CHOOSE e \in es : \A f \in es : f.s <= e.s).v
 Latest(k) == ValAt(k, 1000)
 
+\* the keyspace of a key: scans, ranges and their read footprints are per keyspace
+KsOf(k) == IF k <= KsSplit THEN 1 ELSE 2
+
 \* what transaction t reads for k: own write first, then the snapshot
 TxVal(r, k) == IF r.w[k].set THEN r.w[k].v ELSE ValAt(k, r.inst)
 \* evaluation of a read method on a given overlay function
 EvalRead(m, arg, val) ==
     IF m \in {"get", "size_of", "rmw"} THEN val[arg]
-    ELSE IF m = "scan" THEN {<<k, val[k]>> : k \in {x \in Keys : val[x] # 0}}
-    ELSE (* range_lo: keys <= arg *) {<<k, val[k]>> : k \in {x \in Keys : x <= arg /\ val[x] # 0}}
+    ELSE IF m = "scan" THEN (* the keyspace of arg *) {<<k, val[k]>> : k \in {x \in Keys : KsOf(x) = KsOf(arg) /\ val[x] # 0}}
+    ELSE (* range_lo: keys <= arg of arg's keyspace *)
+         {<<k, val[k]>> : k \in {x \in Keys : KsOf(x) = KsOf(arg) /\ x <= arg /\ val[x] # 0}}
 
 \* the read footprint the CODE records for each method
 Footprint(m, arg) ==
     IF m \in {"get", "rmw"} THEN {<<"single", arg>>}
     ELSE IF m = "size_of" THEN (IF FixSizeOf THEN {<<"single", arg>>} ELSE {})
-    ELSE IF m = "scan" THEN {<<"all", 0>>}
+    ELSE IF m = "scan" THEN {<<"all", KsOf(arg)>>}
     ELSE {<<"range_lo", arg>>}
-Covers(fp, k) == \/ fp[1] = "all"
+Covers(fp, k) == \/ fp[1] = "all" /\ KsOf(k) = fp[2]
                  \/ fp[1] = "single" /\ fp[2] = k
-                 \/ fp[1] = "range_lo" /\ k <= fp[2]
+                 \/ fp[1] = "range_lo" /\ KsOf(k) = KsOf(fp[2]) /\ k <= fp[2]
 
 \* tracker
 Cnt(i) == LET r == {p \in trk.cnt : p[1] = i} IN IF r = {} THEN 0 ELSE (CHOOSE p \in r : TRUE)[2]
